@@ -1246,10 +1246,33 @@ class Engine:
         """thrown type_info object equals target or (single inheritance chain) derives from it"""
         seen = 0
         cur = thrown
+        STD_BASE = {'_ZTISt11logic_error': '_ZTISt9exception', '_ZTISt13runtime_error': '_ZTISt9exception',
+                    '_ZTISt12out_of_range': '_ZTISt11logic_error', '_ZTISt12length_error': '_ZTISt11logic_error',
+                    '_ZTISt16invalid_argument': '_ZTISt11logic_error', '_ZTISt12domain_error': '_ZTISt11logic_error',
+                    '_ZTISt14overflow_error': '_ZTISt13runtime_error', '_ZTISt11range_error': '_ZTISt13runtime_error',
+                    '_ZTISt9bad_alloc': '_ZTISt9exception', '_ZTISt8bad_cast': '_ZTISt9exception',
+                    '_ZTISt20bad_array_new_length': '_ZTISt9bad_alloc'}
+        tname = self.typeinfo_name(st, target)
         while cur and seen < 16:
             if cur == target:
                 return True
             o = st.mem.get(cur >> OBJ_SHIFT)
+            # type_info objects of libstdc++ classes live in libstdc++.so: their base chain is known
+            if o is not None and o.name in STD_BASE:
+                base = STD_BASE[o.name]
+                if base == tname:
+                    return True
+                nxt = self.gaddr.get(base)
+                if nxt is None:
+                    # base type_info not referenced by the module: walk names only
+                    while base in STD_BASE:
+                        base = STD_BASE[base]
+                        if base == tname:
+                            return True
+                    return False
+                cur = nxt
+                seen += 1
+                continue
             if o is None or o.size < 24:
                 return False
             # __si_class_type_info: { vtable*, name*, base* }
